@@ -1,6 +1,7 @@
 import Pycoin.Driver.Core
 import Pycoin.Model.Der
 import Pycoin.Model.Wif
+import Pycoin.Model.KeyOps
 import Pycoin.Gen.Curves
 import Pycoin.Gen.Networks
 /-!
@@ -20,6 +21,11 @@ ignored by the model; flags are `0`/`1`.
   der_enc r s                      sigencode_der                            ok <hex> | err <Class>
   der_dec strict hex               sigdecode_der(sig, not strict)           ok r s | err <Class>
   der_int r / der_len l / der_rdlen hex / der_rmint strict hex / der_rmseq hex
+  key_verify sec h sig             keys.public(sec).verify(h, sig) on raw bytes   ok 0|1 | err <Class>
+  key_sign_pub net sec h           keys.public(sec).sign(h)                 err RuntimeError
+  key_override cfg net1 net2 d comp   keys.private(d, comp).override_network(net2)  ok d comp wif | err <Class>
+  key_override_pub net1 net2 sec   keys.public(sec).override_network(net2)  err ValueError
+  key_public net item flag         keys.public(item, is_compressed=flag); item s<hex> | p<x>,<y> | pinf; flag c|u|d
 -/
 namespace Pycoin.Driver.C10
 open Pycoin.Driver Pycoin
@@ -115,6 +121,59 @@ def handle : Handler := fun op args =>
       | some d => some s!"ok {d} {showBool k.compressed}"
       | none => some "ok public"
     | .error e => some (showErr e)
+  | "is_sec", [sec] => do some ("ok " ++ showBool (KeyOps.isSec (← parseHex? sec)))
+  -- a plain Key has no hierarchy: subkey(), subkey_for_path(p), subkeys(p) are the key itself
+  | "key_nohier", [_net, d, _comp] => do
+    match KeyCtor.keyFromSecretWith k1 mulFast (← parseInt? d) true with
+    | .ok _ => some "ok 1 1 1"
+    | .error e => some (showErr e)
+  | "key_verify", [sec, h, sig] => do
+    match KeyCtor.keyFromSec k1 (← parseHex? sec) with
+    | .error e => some (showErr e)
+    | .ok k =>
+      match KeyOps.keyVerify k1 0 (some k.pub) (← parseHex? h) (← parseHex? sig) with
+      | .ok b => some ("ok " ++ showBool b)
+      | .error e => some ("err " ++ e.tag)
+  | "key_sign_pub", [_net, sec, _h] => do
+    match KeyCtor.keyFromSec k1 (← parseHex? sec) with
+    | .error e => some (showErr e)
+    | .ok k =>
+      match KeyOps.keySignGuard k with
+      | .ok () => none
+      | .error e => some ("err " ++ e.tag)
+  | "key_override", [_cfg, _net1, net2, d, comp] => do
+    let net2 ← findNet net2
+    match KeyCtor.keyFromSecretWith k1 mulFast (← parseInt? d) (← parseFlag? comp) with
+    | .error e => some (showErr e)
+    | .ok k =>
+      match KeyOps.overrideNetwork k1 mulFast k with
+      | .error e => some ("err " ++ e.tag)
+      | .ok k' =>
+        let d' := match k'.se with | some d => toString d | none => "-"
+        match Wif.Key.wif net2 k' none with
+        | .ok (some t) => some s!"ok {d'} {showBool k'.compressed} {hx t}"
+        | .ok none => some s!"ok {d'} {showBool k'.compressed} None"
+        | .error e => some (showErr e)
+  | "key_override_pub", [_net1, _net2, sec] => do
+    match KeyCtor.keyFromSec k1 (← parseHex? sec) with
+    | .error e => some (showErr e)
+    | .ok k =>
+      match KeyOps.overrideNetwork k1 mulFast k with
+      | .error e => some ("err " ++ e.tag)
+      | .ok _ => none
+  | "key_public", [_net, item, flag] => do
+    let flag ← if flag = "c" then some (some true) else if flag = "u" then some (some false) else if flag = "d" then some none else none
+    let item ← match item.toList with
+      | 's' :: r => (parseHex? (String.ofList r)).map KeyOps.PubItem.sec
+      | 'p' :: r =>
+        if String.ofList r = "inf" then some (KeyOps.PubItem.pair none)
+        else match (String.ofList r).splitOn "," with
+          | [x, y] => do some (KeyOps.PubItem.pair (some (← parseInt? x, ← parseInt? y)))
+          | _ => none
+      | _ => none
+    match KeyOps.keysPublic k1 item flag with
+    | .ok k => some s!"ok {k.pub.1} {k.pub.2} {showBool k.compressed}"
+    | .error e => some ("err " ++ e.tag)
   | "der_enc", [r, s] => do
     match Der.sigencodeDer (← parseInt? r) (← parseInt? s) with
     | .ok b => some ("ok " ++ hx b)
